@@ -201,12 +201,21 @@ func (q *Seq) Explore(ex *explore.Explorer, sc any, rep *Report, body func(*expl
 
 // Fail records a violation (first per signature is kept: scenarios are enumerated simplest first).
 func (r *Report) Fail(sc any, sig, msg string, choices []int) {
-	if r.sigSeen[sig] {
+	// up to three candidates per signature (from different scenarios) are kept for the
+	// determinism guard, which then prefers one that reproduces
+	r.Counters["failures_seen:"+sig]++
+	if r.Counters["failures_seen:"+sig] > 3 {
 		r.Counters["failures_dup:"+sig]++
 		return
 	}
 	r.sigSeen[sig] = true
 	b, _ := json.Marshal(sc)
+	for _, f := range r.Failures {
+		if f.Sig == sig && string(f.Scenario) == string(b) {
+			r.Counters["failures_dup:"+sig]++
+			return
+		}
+	}
 	r.Failures = append(r.Failures, Failure{Sig: sig, Msg: msg, Scenario: b, Choices: choices, Order: r.curIdx, History: r.history})
 }
 
@@ -380,7 +389,22 @@ func runShard(h *Harness, tier string, i, n int, seed int64, outPath string) *Re
 		}
 		rep.Sample(sc)
 		rep.curScenario, _ = json.Marshal(sc)
-		h.Run(tier, sc, rep)
+		func() {
+			// a replayed prefix that no longer fits (the program under test behaved differently in
+			// two executions of one scenario, e.g. through state it keeps across executions) ends
+			// this scenario, not the worker: the other scenarios of the shard are still explored
+			defer func() {
+				if r := recover(); r != nil {
+					ne, ok := r.(explore.NondetError)
+					if !ok {
+						panic(r)
+					}
+					rep.Incident("HARNESS-NONDETERMINISM")
+					rep.Note(fmt.Sprintf("scenario %s abandoned: %v", rep.curScenario, ne))
+				}
+			}()
+			h.Run(tier, sc, rep)
+		}()
 		return true
 	})
 	// determinism guard: a failure is only believed if 5 replays show it again
@@ -420,6 +444,23 @@ func runShard(h *Harness, tier string, i, n int, seed int64, outPath string) *Re
 			rep.Incident("HARNESS-NONDETERMINISM")
 		}
 	}
+	// one failure per signature: the first that reproduces, else the first
+	var kept []Failure
+	for _, f := range rep.Failures {
+		at := -1
+		for i := range kept {
+			if kept[i].Sig == f.Sig {
+				at = i
+			}
+		}
+		switch {
+		case at < 0:
+			kept = append(kept, f)
+		case !kept[at].Stable && f.Stable:
+			kept[at] = f
+		}
+	}
+	rep.Failures = kept
 	rep.finalize()
 	return rep
 }
@@ -547,8 +588,8 @@ func parent(h *Harness, tier string, seed int64) int {
 				continue
 			}
 			for k := range m.Failures {
-				if m.Failures[k].Sig == f.Sig && f.Order < m.Failures[k].Order {
-					m.Failures[k] = f
+				if m.Failures[k].Sig == f.Sig && ((f.Stable && !m.Failures[k].Stable) || (f.Stable == m.Failures[k].Stable && f.Order < m.Failures[k].Order)) {
+					m.Failures[k] = f // a reproducible instance first, then the simplest scenario
 				}
 			}
 		}
